@@ -383,6 +383,8 @@ type c19Acct struct {
 // every frame has a SEND_RPC event, and every SEND_RPC to a peer whose stream
 // was not closed afterwards did arrive. Call it when all queues have drained.
 func c19Wires(n *vNet, nd *vNode, pups []*vPuppet, evs []*pb.TraceEvent) (*c19Acct, map[string]string, string) {
+	// message IDs as the node is configured to compute them (the function is an option, not part of what is judged)
+	idf := nd.ps.idGen.RawID
 	a := &c19Acct{wireMsgs: map[peer.ID]map[string]bool{}, dropIDs: map[peer.ID]map[string]bool{}, forwarded: map[string]string{}}
 	var fromRaw []c19SD
 	lastClosed := map[peer.ID]int{}
@@ -407,7 +409,7 @@ func c19Wires(n *vNet, nd *vNode, pups []*vPuppet, evs []*pb.TraceEvent) (*c19Ac
 	}
 	for _, e := range nd.tr.Events() {
 		if e.Kind == "send" || e.Kind == "drop" {
-			fromRaw = append(fromRaw, c19SD{e.Kind, e.Peer, c19SigRPC(&e.RPC.RPC, DefaultMsgIdFn), nil, 0})
+			fromRaw = append(fromRaw, c19SD{e.Kind, e.Peer, c19SigRPC(&e.RPC.RPC, idf), nil, 0})
 		}
 	}
 	if len(a.fromEv) != len(fromRaw) {
@@ -459,18 +461,18 @@ func c19Wires(n *vNet, nd *vNode, pups []*vPuppet, evs []*pb.TraceEvent) (*c19Ac
 				// the hello packet (subscriptions, extensions) is written without a queue push; an empty one is not
 				// written at all, and then the first frame is an ordinary announcement: it may or may not have an event
 				a.hello++
-				maybe[c19SigRPC(w.RPC, DefaultMsgIdFn)]++
+				maybe[c19SigRPC(w.RPC, idf)]++
 				continue
 			}
 			a.frames++
 			for _, m := range w.RPC.GetPublish() {
-				id := DefaultMsgIdFn(m)
+				id := idf(m)
 				ids[id] = true
 				if _, ok := a.forwarded[id]; !ok {
 					a.forwarded[id] = p.name
 				}
 			}
-			sigs[c19SigRPC(w.RPC, DefaultMsgIdFn)]++
+			sigs[c19SigRPC(w.RPC, idf)]++
 		}
 		a.wireMsgs[p.ID()] = ids
 		for sig, k := range sigs {
@@ -530,6 +532,12 @@ func TestVerifC19World(t *testing.T) {
 			smallQ := c.Chance(0.4)
 			flood := c.Chance(0.5)
 			opts := []Option{WithEventTracer(tee), WithSeenMessagesTTL(time.Hour)}
+			// one case in six runs without signatures and authors (content-addressed message IDs): a publication that brings its
+			// own key is then refused by the node's own signing policy, and is still a publication attempt
+			noSign := c.Chance(0.16)
+			if noSign {
+				opts = append(opts, WithMessageSignaturePolicy(StrictNoSign), WithMessageIdFn(func(m *pb.Message) string { return m.GetTopic() + "|" + string(m.GetData()) }))
+			}
 			if smallQ {
 				opts = append(opts, WithPeerOutboundQueueSize(c.Range(1, 3)))
 			}
@@ -682,6 +690,7 @@ func TestVerifC19World(t *testing.T) {
 				}
 				return out
 			}
+			nRefused := 0
 			ownPublish := func(tn string, data string, local, batch bool) {
 				h := handle(tn)
 				rc := recipients(tn)
@@ -689,6 +698,7 @@ func TestVerifC19World(t *testing.T) {
 				before := countType(tee.Events(), pb.TraceEvent_PUBLISH_MESSAGE)
 				var err error
 				k := 1
+				refused := false
 				var batchLocal []bool
 				if batch {
 					var mb MessageBatch
@@ -712,7 +722,17 @@ func TestVerifC19World(t *testing.T) {
 					if local {
 						po = append(po, WithLocalPublication(true))
 					}
+					if noSign && !local && c.Chance(0.3) {
+						k := r.n.genKey(false)
+						id, _ := peer.IDFromPrivateKey(k)
+						po = append(po, WithSecretKeyAndPeerId(k, id))
+						refused = true
+					}
 					err = h.Publish(context.Background(), []byte(data), po...)
+					if refused && err == nil {
+						fail(map[string]string{"check": "signed_publication_accepted_without_signing"}, "a publication signed with its own key was accepted under StrictNoSign")
+						return
+					}
 				}
 				vSettle(0)
 				evs := tee.Events()
@@ -739,6 +759,10 @@ func TestVerifC19World(t *testing.T) {
 					}
 					if nth < len(batchLocal) && batchLocal[nth] {
 						continue // stays in this process: no recipients to account for
+					}
+					if refused {
+						nRefused++
+						continue
 					}
 					if err == nil && !local && !strings.HasPrefix(data, "rej") && !strings.HasPrefix(data, "ign") {
 						pubs = append(pubs, &c19Pub{id: string(e.GetPublishMessage().GetMessageID()), topic: tn, at: at, rcpt: rc})
@@ -956,10 +980,17 @@ func TestVerifC19World(t *testing.T) {
 						data = "ign" + data
 						kind = "pmsg_ign"
 					}
-					m := vSignedMsg(gp.p.key, tn, vSeqno(gp.seq), []byte(data))
+					mk := func(data string) *pb.Message {
+						if noSign {
+							tt := tn
+							return &pb.Message{Data: []byte(data), Topic: &tt}
+						}
+						return vSignedMsg(gp.p.key, tn, vSeqno(gp.seq), []byte(data))
+					}
+					m := mk(data)
 					if variant == 5 && c.Chance(0.5) {
 						// large enough for IDONTWANT to the mesh
-						m = vSignedMsg(gp.p.key, tn, vSeqno(gp.seq), []byte(data+strings.Repeat("z", 1500)))
+						m = mk(data + strings.Repeat("z", 1500))
 						kind = "pmsg_big"
 					}
 					if variant == 2 {
@@ -1122,7 +1153,7 @@ func TestVerifC19World(t *testing.T) {
 					}
 					var tail []string
 					for _, w := range byID[to].p.Wire() {
-						tail = append(tail, fmt.Sprintf("+%v#%d:%s", w.T.Sub(r.born).Round(time.Millisecond), w.Idx, c19SigRPC(w.RPC, DefaultMsgIdFn)))
+						tail = append(tail, fmt.Sprintf("+%v#%d:%s", w.T.Sub(r.born).Round(time.Millisecond), w.Idx, c19SigRPC(w.RPC, nd.ps.idGen.RawID)))
 					}
 					if len(tail) > 12 {
 						tail = tail[len(tail)-12:]
@@ -1183,6 +1214,7 @@ func TestVerifC19World(t *testing.T) {
 			c.Count("join_leave", len(expectJL))
 			c.Count("deliver", len(delivers))
 			c.Count("publish_attempts", nPublishAttempts)
+			c.Count("publish_refused_by_own_policy", nRefused)
 			c.Count("send_drop", len(acct.fromEv))
 			c.Count("drop_events", acct.drops)
 			c.Count("wire_frames", acct.frames)
